@@ -16,7 +16,7 @@ E2 (CrossHair on the real classes).  Two kinds of conditions:
   adapter pair that is maximal by (sum of scores, fewer errors in total, given first), or neither mate is changed.
 """
 from harness.e2_common import Rec, StubAdapter, e2_jobs, e2_run_job, e2_replay
-from harness.paired_common import (PRec, Quals, option_set, config, build_pipeline, push_pair, info_with_matches, pick,
+from harness.paired_common import (PRec, Quals, option_set, config, build_pipeline, push_pair, info_with_matches, pick, pick_clamped,
                                    ref_filters, ref_final, writes_ok, layout_ok, pair_sync_ok)
 
 from cutadapt.modifiers import PairedAdapterCutter, ModificationInfo
@@ -39,6 +39,7 @@ TEXTS_LEN = ["", "A", "AC", "ACG", "ACGT", "ACGTA"]              # lengths 0..5
 TEXTS_N = ["ACGT", "ANGT", "NCGN", "NNGN", "NNNN", "N"]          # 0,1,2,3,4,1 N bases
 TEXTS_MIX = ["", "N", "ACG", "NNG", "ACGTA", "ANGNA"]            # lengths 0,1,3,3,5,5 with 0,1,0,2,0,2 N bases
 TEXTS_POS = ["A", "AC", "ACG", "ACGT", "ACGTA", "ACGTAC"]        # lengths 1..6 (average error rate needs length > 0)
+TEXTS_SMALL = ["A", "ANN", "ACGTA", "NNNNN"]                     # lengths 1,3,5,5 with 0,2,0,5 N bases
 EE_VALUES = [0.0, 1.0, 2.5]
 DEFAULT_TEXT = 2
 
@@ -78,7 +79,7 @@ def _mate(mate, pid, adapters, t, q, c, m, k):
     feats = _PARAM["features"]
     texts = _PARAM.get("texts", TEXTS_LEN)
     f = _Feat()
-    f.text = pick(texts, t) if "t" in feats else texts[DEFAULT_TEXT]
+    f.text = pick_clamped(texts, t) if "t" in feats else texts[min(DEFAULT_TEXT, len(texts) - 1)]
     quals = Quals("I" * len(f.text))
     if "q" in feats:
         f.eeval = pick(EE_VALUES, q)
@@ -92,7 +93,7 @@ def _mate(mate, pid, adapters, t, q, c, m, k):
     found = []
     if adapters and "m" in feats and m:
         f.matched_flag = True
-        last = pick(adapters, min(k, len(adapters) - 1)) if "k" in feats else adapters[0]
+        last = pick_clamped(adapters, k) if "k" in feats else adapters[0]
         f.last_name = last.name
         # two matches, so that "the last match" and "a match" are different things
         found = [adapters[0], last]
@@ -164,8 +165,8 @@ def check_pair_adapters(pa0: bool, sa0: int, ea0: int, pb0: bool, sb0: int, eb0:
                         pa1: bool, sa1: int, ea1: int, pb1: bool, sb1: int, eb1: int,
                         pa2: bool, sa2: int, ea2: int, pb2: bool, sb2: int, eb2: int) -> bool:
     """
-    pre: -3 <= sa0 <= 3 and -3 <= sb0 <= 3 and -3 <= sa1 <= 3 and -3 <= sb1 <= 3 and -3 <= sa2 <= 3 and -3 <= sb2 <= 3
-    pre: 0 <= ea0 <= 2 and 0 <= eb0 <= 2 and 0 <= ea1 <= 2 and 0 <= eb1 <= 2 and 0 <= ea2 <= 2 and 0 <= eb2 <= 2
+    pre: -8 <= sa0 <= 8 and -8 <= sb0 <= 8 and -8 <= sa1 <= 8 and -8 <= sb1 <= 8 and -8 <= sa2 <= 8 and -8 <= sb2 <= 8
+    pre: 0 <= ea0 <= 3 and 0 <= eb0 <= 3 and 0 <= ea1 <= 3 and 0 <= eb1 <= 3 and 0 <= ea2 <= 3 and 0 <= eb2 <= 3
     post: _
     """
     ranks = _PARAM.get("ranks", 2)
@@ -234,8 +235,9 @@ _add("combined/interleaved-out/both", option_set(mode="both", m="2", M="4:", sho
 _add("combined/interleaved-out/any", option_set(mode=None, m=":2", M="4", short_out=True, r1=("one",), r2=("two",), untrimmed="output", interleaved=True), "tm", TEXTS_MIX)
 _add("combined/interleaved-in/first", option_set(mode="first", m="1:3", long_out=False, M="4", max_n=1, r2=("two",), untrimmed="discard", interleaved_input=True), "tm", TEXTS_MIX)
 _add("combined/interleaved-both/any", option_set(mode="any", m="3", short_out=True, r1=("one", "two"), untrimmed="discard_trimmed", interleaved=True, interleaved_input=True), "tm")
-_add("combined/all-discarding/both", option_set(mode="both", m="2", max_n=1, max_ee=1.0, casava=True, r1=("one",), r2=("two",), untrimmed="discard"), "tqcm", TEXTS_MIX, timeout=600)
-_add("combined/all-discarding/any", option_set(mode=None, M="3", max_n=1, max_ee=1.0, casava=True, r1=("one",), untrimmed="discard"), "tqcm", TEXTS_MIX, timeout=600)
+_add("combined/all-discarding/both", option_set(mode="both", m="2", max_n=1, casava=True, r1=("one",), r2=("two",), untrimmed="discard"), "tcm", TEXTS_SMALL, timeout=600)
+_add("combined/all-discarding/any", option_set(mode=None, M="3", max_n=1, max_ee=1.0, max_aer=0.4, r1=("one",), untrimmed="discard"), "tqm", TEXTS_SMALL, timeout=600)
+_add("combined/all-discarding/first", option_set(mode="first", m="2:", M=":3", max_ee=1.0, casava=True, r2=("two",), untrimmed="discard_trimmed"), "tqcm", TEXTS_SMALL[:3], timeout=600)
 _add("textfiles/any", option_set(mode=None, m="2:", short_out=True, r1=("one", "two"), r2=("three",), untrimmed="output", text_files=True), "tmk")
 _add("textfiles/interleaved/both", option_set(mode="both", M="3", long_out=True, r1=("one",), untrimmed="discard", text_files=True, interleaved=True), "tm")
 
@@ -246,9 +248,16 @@ _add("demux/name/pair-adapters/discard-untrimmed", option_set(r1=("one", "two"),
 _add("demux/combi", option_set(mode="first", r1=("one", "two"), r2=("x", "y", "z"), demux="combi", M="4", long_out=True), "tmk")
 _add("demux/combi/discard-untrimmed", option_set(r1=("one", "two"), r2=("x",), demux="combi", untrimmed="discard"), "mk")
 
+# thorough tier: the length notations again with interleaved files, and larger feature products
+for _mode in _MODES:
+    for _m, _M in (("2", "4"), ("2:", ":4"), (":2", "4:"), ("1:3", "4:2")):
+        _add("length/interleaved-out/mode=%s/m=%s/M=%s" % (_mode, _m, _M), option_set(mode=_mode, m=_m, M=_M, short_out=True, long_out=True, interleaved=True), "t", thorough_only=True)
+    _add("combined/all-filters/mode=%s" % _mode, option_set(mode=_mode, m="2:1", M="4", short_out=True, max_n=1, max_ee=1.0, casava=True, r1=("one", "two"), untrimmed="discard"),
+         "tqcmk", TEXTS_MIX, timeout=3000, thorough_only=True)
+
 for _ranks in (1, 2, 3):
     for _action in ("trim", "mask", "lowercase", "retain", None):
-        if _ranks != 2 and _action not in ("trim", None):
+        if _ranks == 1 and _action not in ("trim", None):
             continue
         CONDITIONS.append({"name": "pair_adapters/ranks=%d/action=%s" % (_ranks, _action), "fn": "check_pair_adapters",
                            "param": {"ranks": _ranks, "action": _action}, "timeout": 300 if _ranks < 3 else 900})
@@ -262,8 +271,8 @@ def describe():
                       "predicates.py:TooShort, TooLong, TooManyN, TooManyExpectedErrors, TooHighAverageErrorRate, CasavaFiltered, IsUntrimmed, IsTrimmed (.test)",
                       "modifiers.py:PairedAdapterCutter.__init__/__call__/_find_best_match_pair", "pipeline.py:PairedEndPipeline.process_reads (its step loop, re-stated in paired_common.push_pair)"],
         "bounds": {"option_sets": "%d paired command lines, one per condition: --pair-filter absent/any/both/first x -m/-M as LEN, LEN:, :LEN2, LEN:LEN2 with and without --too-short/--too-long(-paired)-output; adapters on R1 only / R2 only / both x --discard-untrimmed / --untrimmed(-paired)-output / --discard-trimmed; --max-n, --max-ee, --max-aer, --discard-casava; combinations; interleaved input and/or output; --rest-file/--wildcard-file; {name} and {name1}/{name2} outputs" % sum(1 for c in CONDITIONS if c["fn"] == "check_pair_decision"),
-                   "pair": "one pair per condition; per mate: text out of 6 fixed texts (lengths 0..5 or 1..6, 0..4 N bases), expected errors out of {0, 1, 2.5}, CASAVA flag, matched flag, last matching adapter out of <= 3; pair id any int in 0..1e9",
-                   "pair_adapters": "1..3 adapter pairs, each adapter found or not, score -3..3, errors 0..2; actions trim, mask, lowercase, retain, none; fixed match coordinates that differ per rank"},
+                   "pair": "one pair per condition; per mate: text out of 3..6 fixed texts (lengths 0..6, 0..5 N bases), expected errors out of {0, 1, 2.5}, CASAVA flag, matched flag, last matching adapter out of <= 3; pair id any int in 0..1e9",
+                   "pair_adapters": "1..3 adapter pairs, each adapter found or not, score -8..8, errors 0..3; actions trim, mask, lowercase, retain, none; fixed match coordinates that differ per rank"},
         "outside_bounds": ["more than one pair per run is covered by induction only (the steps read no state that a previous pair wrote, counters are only incremented)",
                            "reading the input files and writing real files (dnaio / xopen), multi-core runs (C06)", "the modifiers in front of the steps: their effect on a mate is represented by the symbolic features",
                            "order of filters when two different criteria hit (C11): the reference uses the builder's order -m, -M, --max-n, --max-ee, --max-aer, --discard-casava, trimmed/untrimmed; no option set combines --discard-casava with a redirecting trimmed/untrimmed option",
